@@ -7,6 +7,7 @@ import random
 
 from .. import core, build as B
 
+LEVEL = "fault_enumeration"
 THREE = ["KQK", "KRK", "KBK", "KNK", "KKQ", "KKR", "KKB", "KKN"]
 P = "QRBN"
 FOUR = ([("K%s%sK" % (a, b)) for i, a in enumerate(P) for b in P[i:]] + [("K%sK%s" % (a, b)) for a in P for b in P] +
